@@ -226,6 +226,14 @@ def gen(tier, rnd):
                 a, b = (worm, wheel) if kind == 'worm' else (wheel, worm)
                 add_worm_gear_mating(a, b, 0)
         evs.append(pair_event(eid(), a, b, True, tqs, rnd))
+        if rnd.random() < 0.5:
+            # the user re-expresses a geometric / material parameter IN PLACE (the quantity object the gear holds, reached through
+            # the public getter) after the first computation: the magnitudes have not changed, so neither have force and stresses
+            cands = [(g, at, kind) for g in (a, b) for at, kind in (('module', 'Length'), ('face_width', 'Length'), ('elastic_modulus', 'Stress'), ('reference_diameter', 'Length'))
+                     if getattr(g, at, None) is not None]
+            for g, at, kind in rnd.sample(cands, min(len(cands), 2)):
+                getattr(g, at).to(rnd.choice(spectab.units_of(kind)), inplace=True)
+            evs.append(pair_event(eid(), a, b, True, tqs, rnd))
     return evs
 
 
